@@ -113,9 +113,9 @@ def plan(tier, seed):
         for i in range(8):
             shards.append({'kind': 'negarg', 'part': i, 'n': 60000})
         for i in range(16):
-            shards.append({'kind': 'hist_ev', 'part': i, 'n': 1000000})
+            shards.append({'kind': 'hist_ev', 'part': i, 'n': 600000})
         for i in range(16):
-            shards.append({'kind': 'hist_prog', 'part': i, 'n': 5000})
+            shards.append({'kind': 'hist_prog', 'part': i, 'n': 4000})
     return shards
 
 
